@@ -244,6 +244,10 @@ func runC01(r *rt.Runner) {
 		strings.Repeat("[ ", 400)+strings.Repeat("] ", 400),
 		strings.Repeat("<< /a ", 300)+"1 "+strings.Repeat(">> ", 300),
 		strings.Repeat("( ", 100000)+strings.Repeat(") ", 100000),
+		// 16 MB of nested braces (tokens inside braces are not budgeted)
+		strings.Repeat("{", 8000000)+strings.Repeat("}", 8000000)+" bind pop",
+		strings.Repeat("{", 8000000)+strings.Repeat("}", 8000000)+" dup length exch 0 get eq",
+		strings.Repeat("[", 600)+strings.Repeat("]", 600), strings.Repeat("<<", 600)+strings.Repeat(">>", 600),
 		"/a 1 array def a 0 a put a { } forall a a eq a length a 0 get 0 get 0 get",
 		"/p { [ p ] } def p", "/p { << /k p >> } def p", "{ currentfile eexec } loop", "currentfile eexec currentfile eexec",
 		"currentfile eexec", "currentfile closefile 1 2", "16#FFFFFFFFFFFFFFFFFFFFFFFF 1e999 -1e999 1e-999 36#ZZZZZZZZZZZZZZZZZZ",
@@ -517,7 +521,36 @@ func genHostileFont(rng *rand.Rand) ([]byte, string) {
 	}
 	mode := rng.IntN(5)
 	desc := ""
+	if mode == 0 && rng.IntN(8) == 0 {
+		mode = 5
+	}
 	switch mode {
+	case 5:
+		// a call tree: subroutine k calls subroutine k-1 m times, the glyph
+		// calls the top one; m^depth calls from a file of a few hundred bytes
+		depth := 2 + rng.IntN(9)
+		m := []int{2, 3, 5, 8, 16, 30, 60}[rng.IntN(7)]
+		lay.RawSubrs = make([][]byte, depth)
+		leaf := []byte{11}
+		if rng.IntN(2) == 0 {
+			leaf = []byte{140, 140, 5, 11} // 1 1 rlineto return
+		}
+		lay.RawSubrs[0] = leaf
+		for k := 1; k < depth; k++ {
+			var b []byte
+			for j := 0; j < m; j++ {
+				num(&b, int64(k-1))
+				b = append(b, 10)
+			}
+			lay.RawSubrs[k] = append(b, 11)
+		}
+		for _, g := range mf.w.Glyphs {
+			var b []byte
+			b = append(b, 139, 139, 13) // 0 0 hsbw
+			num(&b, int64(depth-1))
+			g.Raw = append(b, 10, 14)
+		}
+		desc = fmt.Sprintf("subroutine call tree: fan-out %d, depth %d", m, depth)
 	case 0, 1:
 		// hostile charstrings and subroutine graphs (self calls, mutual calls, depth up to 64)
 		nsub := rng.IntN(70)
